@@ -195,6 +195,9 @@ pub fn cases(tier: Tier) -> Vec<GCase> {
             out.push(c);
         }
     }
+    // non-initial states: the component was already applied to the same witnesses
+    let again: Vec<GCase> = out.iter().filter(|c| !c.g.name.contains("mul_point") || tier == Tier::Thorough).map(|c| { let mut d = c.after_self_call(); d.confirm = !c.g.name.contains("mul_point"); d }).collect();
+    out.extend(again);
     out
 }
 
